@@ -46,7 +46,7 @@ fn main() {
     // seeded change a check had to learn to catch) run first, each in its own process, bypassing
     // the generators. They are plain regression cases: a failure is a violation.
     let mut regress_failed = false;
-    if replay.is_none() && std::env::var("FVH_NO_REGRESS").is_err() {
+    if replay.is_none() && std::env::var("FVH_NO_REGRESS").is_err() && std::env::var("FVH_PART").is_err() {
         let dir = std::path::Path::new(env!("CARGO_MANIFEST_DIR")).parent().unwrap().join("regress").join(&id);
         let mut files: Vec<std::path::PathBuf> = std::fs::read_dir(&dir).map(|d| d.filter_map(|e| e.ok()).map(|e| e.path()).filter(|p| p.extension().map_or(false, |x| x == "json")).collect()).unwrap_or_default();
         files.sort();
